@@ -51,6 +51,7 @@ PROOFS = {
     'C04': ['RefundNeverMore', 'RefundAtMostDustLess'],
     'C05': ['ShareNeverMore', 'ShareAtMostOneLess'],
     'C06': ['GrossUpperBound', 'CommissionIdentity'],
+    'C15': ['SlippageGuardSound (a provision the guard lets through is within (d0/d1)(1-t) < r0/r1 + 2/D, each side)'],
 }
 
 MATH_N = {'quick': 1600, 'thorough': 24000}
